@@ -39,11 +39,11 @@ fn do_call(c: &Case, g: &mut pickle_fuzzer::Generator, call: &Call) -> Option<Re
             None
         }
         Call::Gen => {
-            let cc = Case { mode: Mode::Rand(0), ..c.clone() };
+            let cc = Case { mode: Mode::Rand(0), warm: 0, ..c.clone() };
             Some(cc.run_on(g))
         }
         Call::Arb(b) => {
-            let cc = Case { mode: Mode::Arb(b.clone()), ..c.clone() };
+            let cc = Case { mode: Mode::Arb(b.clone()), warm: 0, ..c.clone() };
             Some(cc.run_on(g))
         }
     }
@@ -124,6 +124,7 @@ pub fn cmd_hist(args: &[String]) {
         }
         // a seed is always set so that `generate` is deterministic
         c.mode = Mode::Rand(rng.next() % 100000);
+        c.warm = 0;
         let k = 1 + rng.below(maxlen);
         let mut calls = Vec::new();
         for _ in 0..k {
